@@ -733,6 +733,190 @@ def gen_C10(g, tier):
     return lines
 
 
+def iupac_char(g, code):
+    return g.info["iupac"]["to_char"][code]
+
+
+def gen_C12(g, tier):
+    r = g.r
+    lines = []
+    c = "iupac"
+    per = 16
+    codes = list(range(16))
+    chars = [iupac_char(g, x) for x in codes]
+    # all 256 symbol pairs, embedded at independent offsets
+    for a in codes:
+        for b in codes:
+            la, lb = r.randrange(0, per + 1), r.randrange(0, per + 1)
+            sa = offset_slice(g, c, [chars[a]], la)
+            sb = offset_slice(g, c, [chars[b]], lb)
+            lines.append(f"{c} show and {sa} {sb}")
+            lines.append(f"{c} show or {sa} {sb}")
+            lines.append(f"{c} contains slice {sa} {sb}")
+            if tier != "quick" or r.random() < 0.25:
+                lines.append(f"{c} show bitand own {sa} own {sb}")
+                lines.append(f"{c} show bitor own {sa} own {sb}")
+                lines.append(f"{c} contains seq {sa} {sb}")
+    for _ in range(60 if tier == "quick" else 1500):
+        n = r.choice([0, 1, 2, 15, 16, 17, 31, 32, 33, r.randrange(0, 80)])
+        ta, tb = g.text(c, n), g.text(c, n)
+        if r.random() < 0.4:
+            # make tb a sub-pattern of ta position-wise
+            tb = [iupac_char(g, g.code(c, x) & r.randrange(16)) for x in ta]
+        sa = offset_slice(g, c, ta, r.randrange(0, per + 1))
+        sb = offset_slice(g, c, tb, r.randrange(0, per + 1))
+        lines.append(f"{c} show and {sa} {sb}")
+        lines.append(f"{c} show or {sa} {sb}")
+        lines.append(f"{c} show bitand own {sa} own {sb}")
+        lines.append(f"{c} show bitor own {sa} own {sb}")
+        lines.append(f"{c} contains slice {sa} {sb}")
+        lines.append(f"{c} contains seq {sa} {sb}")
+        # length mismatches for contains (and for the operators: result keeps the left length)
+        m = r.choice([0, max(n - 1, 0), n + 1, n + 3])
+        sc = offset_slice(g, c, g.text(c, m), r.randrange(0, per + 1))
+        lines.append(f"{c} contains slice {sa} {sc}")
+        lines.append(f"{c} contains seq {sc} {sa}")
+        lines.append(f"{c} show and {sa} {sc}")
+        lines.append(f"{c} show or {sc} {sa}")
+        lines.append(f"{c} show tocomp p str {hx(ta)}")
+    for _ in range(10 if tier == "quick" else 200):
+        n = r.randrange(0, 70)
+        t = g.text("dna", n)
+        lines.append(f"dna conv iupac {offset_slice(g, 'dna', t, r.randrange(0, 33))}")
+    for b in "ACGT":
+        lines.append(f"dna conv iupac p str {ord(b):02x}")
+    return lines
+
+
+def gen_C13(g, tier):
+    r = g.r
+    lines = []
+    letters = [0x41, 0x43, 0x47, 0x54]
+    for v in range(64):
+        t = [letters[v & 3], letters[(v >> 2) & 3], letters[(v >> 4) & 3]]
+        for lead in range(0, 33):
+            if tier == "quick" and lead not in (0, 1, 15, 30, 31, 32) and r.random() < 0.7:
+                continue
+            lines.append(f"dna toamino {offset_slice(g, 'dna', t, lead)}")
+    for n in (0, 1, 2, 4, 5):
+        lines.append(f"dna toamino p str {hx(g.text('dna', n))}")
+    for _ in range(20 if tier == "quick" else 400):
+        n = r.randrange(0, 120)
+        lines.append(f"dna translate {offset_slice(g, 'dna', g.text('dna', n), r.randrange(0, 33))}")
+    return lines
+
+
+def gen_C14(g, tier):
+    r = g.r
+    lines = []
+    chars = [iupac_char(g, x) for x in range(16)]
+    for a in range(16):
+        for b in range(16):
+            for c3 in range(16):
+                t = [chars[a], chars[b], chars[c3]]
+                lead = r.randrange(0, 17)
+                lines.append(f"iupac trytoamino {offset_slice(g, 'iupac', t, lead)}")
+    for n in (0, 1, 2, 4, 5):
+        for _ in range(3):
+            lines.append(f"iupac trytoamino {offset_slice(g, 'iupac', g.text('iupac', n), r.randrange(0, 17))}")
+    for i in range(len(g.info["amino"]["items"])):
+        lines.append(f"amino trytocodon {i}")
+        lines.append(f"amino tocodon {i}")
+    return lines
+
+
+def gen_C15(g, tier):
+    r = g.r
+    lines = []
+    na = len(g.info["amino"]["items"])
+    for c in ("dna", "iupac"):
+        per = 64 // g.width[c]
+        for _ in range(60 if tier == "quick" else 1200):
+            L = r.choice([1, 2, 3, 3, 3, 4])
+            nent = r.randrange(0, 9)
+            pool = [g.text(c, L) for _ in range(max(1, nent))]
+            aminos = [r.randrange(na) for _ in range(r.choice([1, 2, 3, 5]))]
+            entries = []
+            for _ in range(nent):
+                cod = r.choice(pool) if r.random() < 0.8 else g.text(c, r.choice([1, 2, 3, 4]))
+                entries.append((cod, r.choice(aminos)))
+            qs = []
+            for (cod, _a) in entries[:4]:
+                qs.append(f"c {offset_slice(g, c, cod, r.randrange(0, per + 1))}")
+            for _ in range(3):
+                qs.append(f"c {offset_slice(g, c, g.text(c, r.choice([L, L, 1, 2, 3, 4, 0])), r.randrange(0, per + 1))}")
+            for a in set(aminos) | {r.randrange(na)}:
+                qs.append(f"a {a}")
+            ent = " ".join(f"{hx(cod)} {a}" for cod, a in entries)
+            lines.append(f"{c} codontable {nent} {ent} {len(qs)} {' '.join(qs)}".replace("  ", " "))
+    return lines
+
+
+def gen_C19(g, tier):
+    r = g.r
+    lines = []
+    for _ in range(30 if tier == "quick" else 500):
+        n = r.choice([0, 1, 31, 32, 33, r.randrange(0, 100)])
+        t = g.text("dna", n)
+        sl = offset_slice(g, "dna", t, r.randrange(0, 33))
+        lines.append(f"dna conv iupac {sl}")
+        lines.append(f"dna conv text {sl}")
+        lines.append(f"dna conv text sl full 0 0 own {sl}")
+    for c in CODECS:
+        w = g.width[c]
+        bads = bad_bytes(g, c, False)
+        for _ in range(40 if tier == "quick" else 800):
+            n = r.choice([0, 1, 2, 64 // w, 64 // w + 1, r.randrange(0, 60)])
+            core = g.text(c, n)
+            if n >= 2 and r.random() < 0.35:
+                core[r.randrange(1, n - 1) if n > 2 else 1] = r.choice(bads) if n > 2 else core[1]
+            pre = [r.choice(bads) for _ in range(r.choice([0, 0, 1, 3, 9]))]
+            post = [r.choice(bads) for _ in range(r.choice([0, 0, 1, 4, 11]))]
+            lines.append(f"{c} show trim {hx(pre + core + post)}")
+        lines.append(f"{c} show trim -")
+        lines.append(f"{c} show trim {hx([r.choice(bads) for _ in range(5)])}")
+        for b in range(256):
+            if tier != "quick" or b % 3 == 0:
+                lines.append(f"{c} show trim {hx([b] + g.text(c, 2) + [b])}")
+    return lines
+
+
+def gen_C20(g, tier):
+    r = g.r
+    lines = []
+    for c in ("mdna", "miupac"):
+        w = g.width[c]
+        per = 64 // w
+        items = g.info[c]["items"]
+        chars = [g.info[c]["to_char"][x] for x in items]
+        for ch in chars:
+            for op in ("mask", "unmask", "tomask", "tounmask"):
+                lines.append(f"{c} show {op} p str {ch:02x}")
+            lines.append(f"{c} show mask mask p str {ch:02x}")
+            lines.append(f"{c} show unmask mask p str {ch:02x}")
+            lines.append(f"{c} show unmask unmask p str {ch:02x}")
+            lines.append(f"{c} show comp mask p str {ch:02x}")
+            lines.append(f"{c} show mask comp p str {ch:02x}")
+        for n in ([12, 13, 14, 26, 39, 52] if tier == "quick" else list(range(0, 56))):
+            t = g.text(c, n)
+            base = f"p str {hx(t)}"
+            for op in ("mask", "unmask", "tomask", "tounmask"):
+                lines.append(f"{c} show {op} {base}")
+                lines.append(f"{c} show {op} own {offset_slice(g, c, t, r.randrange(0, per + 2))}")
+            lines.append(f"{c} show rev mask {base}")
+            lines.append(f"{c} show mask rev {base}")
+            lines.append(f"{c} show revcomp mask {base}")
+            lines.append(f"{c} show mask revcomp {base}")
+            lines.append(f"{c} show unmask mask {base}")
+            lines.append(f"{c} show unmask {base}")
+        for _ in range(10 if tier == "quick" else 200):
+            v, n = rand_value(g, c, r.randrange(1, 5), 120)
+            for op in ("mask", "unmask"):
+                lines.append(f"{c} show {op} {v}")
+    lines.append("dna show mask p str 41")
+    return lines
+
+
 def gen_C05(g, tier):
     lines = []
     for c in CODECS:
